@@ -17,7 +17,7 @@ META = {
             'no unresolved Type expression; index laws (GetSpecific = filter in order, GetAllOfType/GetAll = filter up to permutation, has, only) for all lists. '
             'Independent of how validType is written: the stream `accept` calls the real purl.FromString on a well-formed purl of every emitted type (and, informationally, '
             'of every purl.Type* constant), and the `layout` harvest extracts the OS extractors\' fixtures at their PRODUCTION paths (dpkg status at usr/lib/opkg/status where '
-            'ToPURL switches to type opkg, status.d, apk, rpm, cos, snap, pacman, portage, flatpak, kernel modules, nix store, macapps, homebrew) under 9 etc/os-release variants. '
+            'ToPURL switches to type opkg, status.d, apk, rpm, cos, snap, pacman, portage, flatpak, kernel modules, nix store, macapps, homebrew) under 24 etc/os-release variants (distributions + VERSION_ID shapes: leading v, trailing .x, edge.<date>, no dot, lone / leading / trailing dot, empty, 600 characters, quoted with spaces, four components; fields absent one at a time), Ecosystem() / ToPURL() / proto conversion of every package under recover. '
             'AUDIT NOTE: C14_proto_fields/_purl/_list and C14_cdx_fields are definitional restatements of the Lean record builder — their content is the correspondence stream that ties the '
             'builder to proto.go (`proto` op) resp. C15\'s stream for the SBOM model; C14_proto_lossless_partial (reading the record back gives the package, against an independent reader) and '
             'C14_spdx_fields (against a filter specification) are not. '
@@ -153,7 +153,7 @@ def run(ctx):
                 'variants, annotations 0..4/-1/2^40, layer indexes up to 2^32+5 -> real ScanResultToProto vs the Lean model, field by field; '
                 'purlrt = every emitted purl type x {name, namespace, version, qualifier value, subpath} x 15 byte classes needing escaping: parses, print∘parse∘print = print, index finds it; '
                 'accept = the real purl.FromString on "pkg:<type>/ns/name@1.0" and on String() of a built PackageURL for every emitted type (oracle) and every Type* constant (reported); '
-                'layout = the OS fixtures at production paths x 9 os-release variants through filesystem.Run with all built-in extractors; '
+                'layout = the OS fixtures at production paths x 24 os-release variants (9 distributions + 15 VERSION_ID / absent-field shapes) through filesystem.Run with all built-in extractors; '
                 'harvest = every file (<= 8 MiB) under every built-in filesystem extractor\'s testdata, copied to a scratch dir, extracted with that extractor; per fixture the packages are '
                 'converted as produced and again with name/version mutated to need percent-encoding; index = the (type, name) list of each fixture\'s packages (first 40) plus random lists of '
                 '0..8 packages over 6 types x 6 names incl. empty and upper-case. non-trivial = a harvest line with >= 1 package or an index line with >= 2 packages; distinct = distinct case lines')
